@@ -109,6 +109,41 @@ def _split_attrpath(text: str) -> list[str]:
     return segments
 
 
+def attr_name_key(name: Any) -> Any:
+    """Comparison key of an attribute name as spelled in source.
+
+    Nix reads `a` and `"a"` (or `foo-bar` and `"foo-bar"`) as the same
+    attribute, so a quoted spelling without interpolation is decoded before
+    names are compared.  Dynamic names (`"a${x}"`) only ever equal themselves.
+    """
+    if not isinstance(name, str) or len(name) < 2:
+        return name
+    if not (name.startswith('"') and name.endswith('"')):
+        return name
+    decoded: list[str] = []
+    index = 1
+    end = len(name) - 1
+    while index < end:
+        ch = name[index]
+        if ch == "\\" and index + 1 < end:
+            nxt = name[index + 1]
+            decoded.append({"n": "\n", "r": "\r", "t": "\t"}.get(nxt, nxt))
+            index += 2
+            continue
+        if ch == "$" and index + 1 < end and name[index + 1] == "{":
+            return name
+        if ch == '"':
+            return name
+        decoded.append(ch)
+        index += 1
+    return "".join(decoded)
+
+
+def same_attr_name(left: Any, right: Any) -> bool:
+    """True when two source spellings denote the same attribute name."""
+    return left == right or attr_name_key(left) == attr_name_key(right)
+
+
 @dataclass(slots=True, repr=False)
 class Binding(TypedExpression):
     """Single `name = value;` binding with preserved trivia."""
